@@ -249,7 +249,7 @@ def flows_to(body, local, through=DEFAULT_THROUGH, limit=200):
 # format_args! decoding
 
 def decode_template(bs):
-    """bytes of a fmt::Arguments template -> list of ('lit', text) / ('arg', index_or_None, flags)"""
+    """bytes of a fmt::Arguments template -> list of ('lit', text) / ('arg', index_or_None, flags, width, precision)"""
     out = []; i = 0; n = len(bs); nxt = 0
     while i < n:
         b = bs[i]
@@ -267,16 +267,18 @@ def decode_template(bs):
             flags = None; ai = None
             if b & 1:
                 flags = int.from_bytes(bytes(bs[i:i + 4]), 'little'); i += 4
+            width = prec = None
             if b & 2:
-                i += 2
+                width = int.from_bytes(bytes(bs[i:i + 2]), 'little'); i += 2
             if b & 4:
-                i += 2
+                prec = int.from_bytes(bytes(bs[i:i + 2]), 'little'); i += 2
             if b & 8:
                 ai = int.from_bytes(bytes(bs[i:i + 2]), 'little'); i += 2
             if ai is None:
                 ai = nxt
             nxt = ai + 1
-            out.append(('arg', ai, flags))
+            # width / precision are present when given in the template (`{:24}`, `{:.24}`); `{:.*}` only sets flag bit 28
+            out.append(('arg', ai, flags, width, prec if prec is not None else ('dyn' if flags is not None and flags & (1 << 28) else None)))
         else:
             raise Broken('cannot decode fmt template byte %#x' % b)
     return out
